@@ -4,7 +4,7 @@ from __future__ import annotations
 import ast
 
 from ..cfg import CFG
-from ..engine import AnalysisError, PropertySpec, norm
+from ..engine import AnalysisError, MechanismMissing, PropertySpec, norm
 from ..pyutil import call_name, calls, is_name, walk_local
 from ._simplify import MODEL, passes
 from .c18 import signature_lists
@@ -41,7 +41,7 @@ def r22_1(ctx, rep):
         if isinstance(s, ast.Assign) and isinstance(s.value, ast.Call) and call_name(s.value) in ("ca.vertcat", "ca.veccat") and len(s.value.args) >= 3:
             table = s
     if table is None:
-        raise AnalysisError(R, "disallowed-symbol table (ca.vertcat(...)) not found in _post_checks")
+        raise MechanismMissing(R, "disallowed-symbol table (ca.vertcat(...)) not found in _post_checks")
     entries = [norm(a) for a in table.value.args]
     rep.ob(R, site, "time", "self.time" in entries, "a duration depending on time must be rejected")
     for lst in want:
@@ -76,7 +76,7 @@ def r22_2(ctx, rep):
     checks = {x.id for x in cfg.stmts() if "._post_checks()" in norm(x.ast)}
     rets = [x for x in cfg.stmts() if isinstance(x.ast, ast.Return)]
     if not simp or not rets:
-        raise AnalysisError(R, "simplify call / return not found in _compile_model")
+        raise MechanismMissing(R, "simplify call / return not found in _compile_model")
     for r in rets:
         w = None
         for s in simp:
@@ -136,7 +136,7 @@ def r22_4(ctx, rep):
                     rep.ob(R, site, "same symbol for state name and input", any("self.model.inputs.append(Variable(%s))" % var == x for x in t),
                            "the input Variable must wrap the symbol whose name is recorded as delay state")
     if not found:
-        raise AnalysisError(R, "delay translation not found in exitExpression")
+        raise MechanismMissing(R, "delay translation not found in exitExpression")
     fn = ctx.func(GEN, "Generator.exitForEquation", R)
     t = [norm(s) for s in ast.walk(fn) if isinstance(s, (ast.Assign, ast.Expr))]
     idx = [x for x in t if x.startswith("i = self.model.delay_states.index(")]
